@@ -48,8 +48,12 @@ SHAPES = {
     "get_close": (b"GET", b"1.1", b"close", None),
     "get_10": (b"GET", b"1.0", None, None),
     "get_10_ka": (b"GET", b"1.0", b"keep-alive", None),
+    # a body that turns malformed after a good head and a good first chunk (last position only)
+    "post_bad": (b"POST", b"1.1", None, "bad"),
 }
-APP_KINDS = ["after", "before", "noread", "gated", "abort"]  # abort: raises after the response start + one chunk (no content-length)
+# abort: raises after the response start + one chunk (no content-length); after_ka: like after, and the application
+# sends its own `connection: keep-alive` response header
+APP_KINDS = ["after", "before", "noread", "gated", "abort", "after_ka"]
 
 
 def req_bytes(i: int, shape: str) -> tuple:
@@ -60,6 +64,10 @@ def req_bytes(i: int, shape: str) -> tuple:
         return h1_request(method, b"/r%d" % i, headers, body=body, version=version), body
     if bk == "chunked":
         return h1_request(method, b"/r%d" % i, headers, chunked=[body[:3], body[3:]], version=version), body
+    if bk == "bad":
+        raw = h1_request(method, b"/r%d" % i, headers, chunked=[body[:3]], version=version)
+        assert raw.endswith(b"0\r\n\r\n")
+        return raw[:-5] + b"ZZ\r\n", body[:3]
     return h1_request(method, b"/r%d" % i, headers, version=version), b""
 
 
@@ -68,6 +76,9 @@ def app_prog(i: int, kind: str) -> list:
     start = {"type": "http.response.start", "status": 200, "headers": [(b"content-length", b"%d" % len(body))]}
     end = {"type": "http.response.body", "body": body, "more_body": False}
     if kind == "after":
+        return [("recv_body",), ("send", start), ("send", end)]
+    if kind == "after_ka":
+        start = {**start, "headers": start["headers"] + [(b"connection", b"keep-alive")]}
         return [("recv_body",), ("send", start), ("send", end)]
     if kind == "before":
         return [("send", start), ("send", end), ("recv_body",)]
@@ -86,7 +97,7 @@ def scenarios(tier: str) -> List[Any]:
     names = list(SHAPES)
     # a client that asked for close (or spoke HTTP/1.0) must not pipeline further requests (RFC 7230 6.6):
     # such requests are only generated in last position; whatever follows them is C04's malformed input.
-    inner = [n for n in names if SHAPES[n][1] == b"1.1" and SHAPES[n][2] is None]
+    inner = [n for n in names if SHAPES[n][1] == b"1.1" and SHAPES[n][2] is None and SHAPES[n][3] != "bad"]
     pipelines = [(a,) for a in names] + [(a, b) for a in inner for b in names]
     if tier == "quick":
         pipelines += [(a, b, c) for a in inner for b in ("get", "post_cl") for c in ("get", "get_close")]
@@ -108,8 +119,12 @@ def scenarios(tier: str) -> List[Any]:
                     else:
                         step = 1 if len(pl) <= 2 else 3
                         segs += [("cut", c) for c in range(1, total, step)] + ["bytes"]
-                    if kind == "abort" and SHAPES[pl[0]][1] == b"1.0":
+                    if kind == "abort" and (SHAPES[pl[0]][1] == b"1.0" or SHAPES[pl[0]][3] == "bad"):
                         continue  # close-delimited body: truncation is invisible by protocol design
+                    if kind == "after_ka":
+                        if engine == "trio" or len(pl) > 2 or mx == 1000:
+                            continue
+                        segs = [sg for sg in segs if sg == "whole" or sg[0] == "bound"]
                     if kind == "gated" and len(pl) >= 2:
                         segs.append("wfail")  # the peer goes away (failed write) while response 0 is being written
                     for seg in segs:
@@ -140,7 +155,7 @@ def build(params: Any) -> tuple:
     else:  # split exactly between request j-1 and j
         off = sum(len(r) for r, _ in reqs[:seg[1]])
         parts = [blob[:off], blob[off:]]
-    apps = {"http:/r%d" % i: app_prog(i, kind if i == 0 else "after") for i in range(len(pl))}
+    apps = {"http:/r%d" % i: app_prog(i, kind if i == 0 or kind == "after_ka" else "after") for i in range(len(pl))}
     sources = [("client", [("data", 0, p) for p in parts if p]),
                ("app", [("release", "g0")]), ("clock", [("tick",)])]
     if seg == "wfail":
@@ -179,6 +194,8 @@ def oracle(w: Any, params: Any) -> List[dict]:
         if n >= len(insts):
             out.append(V("wrong-response", short + ":extra", f"{tag}: response {n} without instance: {r['status']}"))
             continue
+        if r["complete"] and r["status"] == 400 and n < len(pl) and SHAPES[pl[n]][3] == "bad":
+            continue  # the server's own answer to the malformed body
         if r["complete"] and (r["status"] != 200 or r["body"] != b"r%d" % n):
             out.append(V("wrong-response", short + ":tag", f"{tag}: response {n}: {r['status']} {r['body']!r}"))
     # the next instance starts only after the previous response is complete on the wire
@@ -212,7 +229,11 @@ def oracle(w: Any, params: Any) -> List[dict]:
         out.extend(internal_errors(w))
         return out
     if rec.lost_at is not None:
-        late = [i for i in insts if rec.lost_seq is not None and i.seq_start > rec.lost_seq]
+        # (an application task first runs some steps after its request was taken on: the request that follows the
+        # responses delivered completely before the failure may have been taken on before it, e.g. when the failed
+        # write is the server's own 400 for that very request)
+        delivered = sum(1 for r in cl.responses if r["complete"])
+        late = [i for n, i in enumerate(insts) if rec.lost_seq is not None and i.seq_start > rec.lost_seq and n > delivered]
         if late:
             out.append(V("served-after-abort", short + ":peer-lost", f"{tag}: instance(s) {[i.scope['path'] for i in late]} created after the write failed"))
         out.extend(internal_errors(w))
@@ -224,6 +245,18 @@ def oracle(w: Any, params: Any) -> List[dict]:
         if n >= len(insts):
             break
         shape = pl[n]
+        if SHAPES[shape][3] == "bad":
+            # a malformed message ends the connection; a response the application completed before the malformed
+            # part arrived cannot announce it, the server's own 400 must
+            if len(insts) > n + 1:
+                out.append(V("served-after-close", short + ":malformed", f"{tag}: instance {n + 1} exists"))
+            if all_fed and rec.closed_at is None and not _half_closed(rec):
+                out.append(V("not-closed", short + ":malformed", f"{tag}: connection still open after the malformed body"))
+            r = cl.responses[n] if n < len(cl.responses) else None
+            if r is not None and r["complete"] and r["status"] == 400 and \
+                    (b"connection", b"close") not in [(a.lower(), b.lower()) for a, b in r["headers"]]:
+                out.append(V("close-not-announced", short + ":malformed", f"{tag}: response {n} headers {r['headers']}"))
+            break
         if _must_close(shape, n + 1, mx):
             if len(insts) > n + 1:
                 out.append(V("served-after-close", short, f"{tag}: request {n} had to end the connection, yet instance {n + 1} exists"))
@@ -240,6 +273,7 @@ def oracle(w: Any, params: Any) -> List[dict]:
         # reusable by the deterministic part of the rule: request n was completely consumed before the
         # application answered (kinds 'after' and 'gated' read the whole body first) and response complete
         k = kind if n == 0 else "after"
+        k = "after" if k == "after_ka" else k
         if k in ("after", "gated") and all_fed and settled and n + 1 < len(pl):
             resp_ok = n < len(cl.responses) and cl.responses[n]["complete"]
             last_fed = max((t for t, e in w.driver.fired if e[0] == "data"), default=0.0)
